@@ -46,6 +46,8 @@ var composedKinds = []gvkT{
 	{Group: "s3.example.org", Version: "v1", Kind: "Bucket"},
 	{Group: "sqs.example.org", Version: "v1beta1", Kind: "Queue"},
 	{Group: "db.example.org", Version: "v1", Kind: "Table"},
+	// a kind whose name ends in "List" (EC2 ManagedPrefixList, IPAllowList ...): not a list type
+	{Group: "ec2.example.org", Version: "v1", Kind: "ManagedPrefixList"},
 }
 
 var revGVK = v1.CompositionRevisionGroupVersionKind
